@@ -772,6 +772,14 @@ fn abort_error(tcb: &Tcb) -> Option<Error> {
 
 fn abort_with(k: &mut Kernel, fd: Fd, reason: AbortReason) {
     let st = k.lookup_mut(fd).unwrap();
+    // A server-side child still in `SynReceived` has no owner yet: it is
+    // neither on the listener's accept queue nor held by a `TcpStream`,
+    // so nobody will ever `close` it. Hand it to `reap_closed`, otherwise
+    // the aborted child keeps its binding and 4-tuple entry forever and
+    // swallows a later SYN that reuses the tuple.
+    if matches!(st.tcb.as_ref().map(|t| t.state), Some(TcpState::SynReceived)) {
+        st.fd_closed = true;
+    }
     if let Some(tcb) = st.tcb.as_mut() {
         tcb.state = TcpState::Closed;
         match reason {
